@@ -69,7 +69,7 @@ func weighted(t *rapid.T, label string, w map[string]int, order []string) string
 }
 
 var opOrder = []string{"add", "addall", "addmany", "wait", "result", "close", "status", "drain", "gwait", "gpending", "gconsume", "purge", "qclose", "qpending",
-	"nproc", "npend", "nidle", "nconc", "wstatus", "metrics", "wuf", "release", "sleep", "settle", "snap", "yield", "pause", "resume"}
+	"nproc", "npend", "nidle", "nconc", "wstatus", "metrics", "wuf", "release", "sleep", "settle", "snap", "yield", "pause", "resume", "pausewait", "stop", "waitstop"}
 var ctrlOrder = []string{"pause", "pausewait", "resume", "stop", "waitstop", "restart", "tune", "bind", "cancelctx", "settle", "sleep", "wuf"}
 
 func genSched(t *rapid.T, pf *Profile, thorough bool) Sched {
